@@ -139,7 +139,7 @@ INFSIZE == 1000000
 RECURSIVE SumSq(_)
 SumSq(q) == IF q = << >> THEN 0 ELSE Head(q) + SumSq(Tail(q))
 AnMake(st, n) ==
-  CASE Analysis = "leaves" -> IF n.ch = << >> THEN {n.op} ELSE UNION {st.cls[FindA(st, n.ch[k].a).id].data : k \in DOMAIN n.ch}
+  CASE Analysis = "leaves" -> IF n.ch = << >> THEN LeafDatum(n.op) ELSE NodeDatum(UNION {st.cls[FindA(st, n.ch[k].a).id].data : k \in DOMAIN n.ch})
     [] Analysis = "size"   -> LET t == 1 + SumSq([k \in DOMAIN n.ch |-> st.cls[FindA(st, n.ch[k].a).id].data]) IN IF t > INFSIZE THEN INFSIZE ELSE t
     [] OTHER               -> 0
 AnMerge(a, b) ==
@@ -298,8 +298,13 @@ HandlePending(st, p) ==
                 s2 == [fr.st EXCEPT !.cls[ai.id].nodes = @ \cup {c2}]
                 \* the entry the e-node queued for itself moves to the canonical spelling (repair 352017a; before it the
                 \* stale entry made the implementation panic)
-                s3 == IF req = {} \/ <<ai.id, c2>> \in PendKeys(s2) THEN s2
-                      ELSE [s2 EXCEPT !.pend = Append(@, <<ai.id, c2, (CHOOSE q \in req : TRUE)[3]>>)]
+                \* an e-node that reaches its own class through a merged-away id is not among the usages UpdateAnalysis has
+                \* queued: if it improved the class it is analysed again (repair of D25; without it the datum of a class with such
+                \* a self-reference stays below the least fixpoint - this model, written after the code, had the same gap)
+                improved == sA.cls[i].data # st.cls[i].data
+                again == req # {} \/ (improved /\ ai.id \in Refs(c2))
+                s3 == IF ~again \/ <<ai.id, c2>> \in PendKeys(s2) THEN s2
+                      ELSE [s2 EXCEPT !.pend = Append(@, <<ai.id, c2, IF req # {} THEN (CHOOSE q \in req : TRUE)[3] ELSE "only">>)]
             IN SelfSym(s3, ai.id, c2)
 
 RECURSIVE Rebuild(_)
